@@ -44,7 +44,7 @@ def floors(tier):
             "valid": 3000, "invalid": 3000,
             "keyword_cells_both_outcomes": 100,   # of 107 (draft, keyword) cells
             "distinct_nontrivial": 10000,
-            "calibration_cases": 2000}
+            "calibration_cases": 2000, "consulting_pairs_enumerated": 500}
 
 
 def classify(case, detail):
@@ -144,6 +144,36 @@ def _core(ctx):
                 ig = InstGen(random.Random(idx), schema)
                 for inst in ig.batch(6):
                     compare(ctx, d, schema, inst, gate=False, tag="matrix-directed")
+    # keywords that consult (or, in another draft, used to consult) each other: always together, both tiers
+    CONSULT = [("minimum", "exclusiveMinimum"), ("maximum", "exclusiveMaximum"), ("items", "additionalItems"),
+               ("properties", "additionalProperties"), ("patternProperties", "additionalProperties"),
+               ("properties", "patternProperties"), ("if", "then"), ("if", "else"), ("properties", "required"),
+               ("properties", "dependencies"), ("items", "contains"), ("items", "uniqueItems"), ("enum", "const"),
+               ("type", "disallow"), ("type", "enum"), ("minItems", "items"), ("required", "dependencies"),
+               ("minLength", "pattern"), ("multipleOf", "minimum"), ("divisibleBy", "minimum"), ("propertyNames", "properties"),
+               ("propertyNames", "additionalProperties"), ("extends", "properties"), ("allOf", "properties"), ("not", "type")]
+    for d in impl.DRAFTS:
+        g = SchemaGen(random.Random(999 + d), d, maxdepth=2)
+        for a, b in CONSULT:
+            if a not in VOCAB[d] or b not in VOCAB[d]:
+                continue
+            for variant in range(10):
+                sa = g.keyword_schema(a)
+                sb = g.keyword_schema(b)
+                idx += 1
+                if not ctx.mine(idx):
+                    continue
+                s = dict(sa)
+                for k, v in sb.items():
+                    s.setdefault(k, v)
+                if variant % 2:
+                    s = dict(reversed(list(s.items())))
+                if not _gate(ctx, d, s):
+                    continue
+                ctx.count("consulting_pairs_enumerated")
+                ig = InstGen(random.Random(idx), s)
+                for inst in V.ALL_REPS[::3] + ig.batch(10):
+                    compare(ctx, d, s, inst, gate=False, tag="consulting-pair")
     if ctx.tier == "thorough":
         for d in impl.DRAFTS:
             g = SchemaGen(random.Random(777 + d), d, maxdepth=2)
